@@ -312,6 +312,84 @@ def sack_env_for_graph(deps, kinds):
     return defs, idx
 
 
+def _twin_kind(n, deps, hidden):
+    if not deps[n]:
+        return "enum" if n % 2 else "struct"
+    return "union" if (n % 2 and n in hidden) else "struct"
+
+
+def _twin_members(n, deps):
+    ds = sorted(deps[n])
+    if ds:
+        k = n % len(ds)
+        ds = ds[k:] + ds[:k]
+    return ds
+
+
+def sack_twin_header(deps, src, hidden):
+    """The whole graph twice, in namespaces `a` and `b`, under the SAME names
+    (the copy in `b` is wider: an extra u64 in every struct and union), every
+    reference written unqualified or keyword-elaborated inside its namespace;
+    a top-level Root uses the sinks of both copies."""
+    def copy(ns):
+        out = []
+        for n in src:
+            kind = _twin_kind(n, deps, hidden)
+            if kind == "enum":
+                out.append("enum N%d { %sN%d_A = %d, %sN%d_B = %d };" % (n, ns, n, n, ns, n, n + 10))
+                continue
+            ms = []
+            if ns == "b" and kind == "struct":
+                ms.append("uint64_t wide;")
+            ms.append("uint8_t o1;" if kind == "union" else "uint8_t own;")
+            for d in _twin_members(n, deps):
+                dk = _twin_kind(d, deps, hidden)
+                spelled = ("N%d" % d) if (n + d) % 2 else ("%s N%d" % (dk, d))      # plain / elaborated
+                if kind == "struct" and dk != "enum" and (n + d) % 3 == 0:
+                    ms.append("%s m%d[2];" % (spelled, d))
+                else:
+                    ms.append("%s m%d;" % (spelled, d))
+            if ns == "b" and kind == "union":
+                ms.append("uint64_t wide;")
+            out.append("%s N%d { %s };" % (kind, n, " ".join(ms)))
+        return "namespace %s {\n%s\n}\n" % (ns, "\n".join(out))
+
+    used = set(d for n in deps for d in deps[n])
+    sinks = [n for n in sorted(deps) if n not in used]
+    root = "struct Root { uint8_t own; %s };\n" % " ".join("%s::N%d r%s%d;" % (ns, n, ns, n) for n in sinks for ns in ("a", "b"))
+    return "#include <stdint.h>\n" + copy("a") + copy("b") + root
+
+
+def sack_twin_env(deps, hidden):
+    """-> (defs, {(ns, n): index, "Root": index})"""
+    defs, idx = [], {}
+    for ns in ("a", "b"):
+        for n in topo_order(deps):
+            kind = _twin_kind(n, deps, hidden)
+            ds = _twin_members(n, deps)
+            if kind == "enum":
+                defs.append(S.EnumDef([n, n + 10]))
+            elif kind == "union":
+                arms = [{"d": 0, "t": S.Int(1)}] + [{"d": j + 1, "t": S.Ref(idx[(ns, d)])} for j, d in enumerate(ds)]
+                if ns == "b":
+                    arms.append({"d": len(arms), "t": S.Int(8)})
+                defs.append(S.UnionDef(arms))
+            else:
+                ms = ([S.Mem("plain", S.Int(8))] if ns == "b" else []) + [S.Mem("plain", S.Int(1))]
+                for d in ds:
+                    if _twin_kind(d, deps, hidden) != "enum" and (n + d) % 3 == 0:
+                        ms.append(S.Mem("fixed", S.Ref(idx[(ns, d)]), 2))
+                    else:
+                        ms.append(S.Mem("plain", S.Ref(idx[(ns, d)])))
+                defs.append(S.StructDef(ms))
+            idx[(ns, n)] = len(defs)
+    used = set(d for n in deps for d in deps[n])
+    sinks = [n for n in sorted(deps) if n not in used]
+    defs.append(S.StructDef([S.Mem("plain", S.Int(1))] + [S.Mem("plain", S.Ref(idx[(ns, n)])) for n in sinks for ns in ("a", "b")]))
+    idx["Root"] = len(defs)
+    return defs, idx
+
+
 # ---------------------------------------------------------------------------
 # running prophyc
 # ---------------------------------------------------------------------------
